@@ -124,6 +124,7 @@ func runUnrolled(cfg *Config) *Report {
 			model = fmt.Sprintf("(GFresh (GFresh (GConj (GEq (PB 2) (PPair (PB 1) (PPair (PB 0) PNil))) (GConj (mapo_unrolled %s %s (PB 1)) (mapo_unrolled %s %s (PB 0))))))",
 				coqFcall(f1), coqList(carsCoq), coqFcall(f2), coqList(carsCoq))
 		}
+		begin(i, desc)
 		got, want := runAll(real), runAll(rec)
 		obs := "(" + strings.Join(got, " ") + ")"
 		if sorted(got) != sorted(want) {
